@@ -87,6 +87,25 @@ class Index:
                 break
         return n
 
+    def searchsorted(self, value, side="left"):
+        """numpy/pandas searchsorted on a sorted index: number of labels < v (left) / <= v (right)"""
+        def one(v):
+            n = 0
+            for x in self._l:
+                if (x < v) if side == "left" else (x <= v):
+                    n += 1
+                else:
+                    break
+            return n
+
+        if isinstance(value, npl.ndarray):
+            out = [one(v) for v in value.tolist()]
+            return npl.ndarray(out, (len(out),), npl.int64)
+        if isinstance(value, (list, tuple)):
+            out = [one(v) for v in value]
+            return npl.ndarray(out, (len(out),), npl.int64)
+        return one(value)
+
     def __len__(self):
         return len(self._l)
 
